@@ -153,11 +153,10 @@ func Templates() []Template {
 	for _, op := range unaryFloat {
 		op := op
 		ts = append(ts, Template{Name: "unary/" + op, Gen: func(rw, rd *rng.R, b int) OpCase {
-			rank3 := rw.Bool()
 			dt := pick(rw, val.Float32, val.Float32, val.Float64)
-			shape := []int{b, 3}
-			if rank3 {
-				shape = []int{b, 2, 3}
+			shape := pick(rw, []int{b, 3}, []int{b, 3}, []int{b, 2, 3}, []int{b}, []int{b, 2, 1, 3}, []int{b, 67}, []int{b, 1})
+			if (op == "Softmax" || op == "LogSoftmax") && len(shape) == 1 {
+				shape = []int{b, 3}
 			}
 			lo, hi := -1.0, 1.0
 			if op == "Acosh" {
@@ -182,7 +181,7 @@ func Templates() []Template {
 	binary := func(op string, dts []val.DT) Template {
 		return Template{Name: "binary/" + op, Gen: func(rw, rd *rng.R, b int) OpCase {
 			dt := dts[rw.Intn(len(dts))]
-			wshape := pick(rw, []int{3}, []int{1, 3}, []int{2, 3}, []int{1}, []int{2, 1})
+			wshape := pick(rw, []int{3}, []int{1, 3}, []int{2, 3}, []int{1}, []int{2, 1}, []int{1, 1, 3}, []int{1, 2, 3})
 			x := RandOf(rd, dt, []int{b, 2, 3})
 			y := RandOf(rw, dt, wshape)
 			if op == "Div" && dt != val.Float32 && dt != val.Float64 {
@@ -201,7 +200,7 @@ func Templates() []Template {
 		}}
 	}
 	for _, op := range binaryNum {
-		ts = append(ts, binary(op, []val.DT{val.Float32, val.Float32, val.Float64, val.Int32, val.Int64}))
+		ts = append(ts, binary(op, []val.DT{val.Float32, val.Float32, val.Float64, val.Int32, val.Int64, val.Uint32, val.Uint64}))
 	}
 	for _, op := range binaryCmp {
 		ts = append(ts, binary(op, []val.DT{val.Float32, val.Int64, val.Int32}))
@@ -273,7 +272,7 @@ func Templates() []Template {
 	}})
 	ts = append(ts, Template{Name: "Conv", Sensitive: true, Gen: func(rw, rd *rng.R, b int) OpCase {
 		twoD := rw.Bool()
-		cin, cout := rw.Range(1, 2), rw.Range(2, 3)
+		cin, cout := rw.Range(1, 2), rw.Range(1, 3)
 		var x, k *val.V
 		var attrs []mb.Attr
 		// attributes are drawn independently so that combinations occur (auto_pad with strides, strides with
@@ -351,24 +350,43 @@ func Templates() []Template {
 		return OpCase{Op: "Gather", Operands: []Operand{weight(RandF32(rw, []int{4, 3}, -2, 2)), data(idx, 0)}, Outs: []string{"y"}}
 	}})
 	ts = append(ts, Template{Name: "Gemm", Sensitive: true, Gen: func(rw, rd *rng.R, b int) OpCase {
-		transB := rw.Bool()
+		transA, transB := rw.Chance(1, 3), rw.Bool()
+		dt := pick(rw, val.Float32, val.Float32, val.Float32, val.Float32, val.Float32, val.Float64)
+		k, n := pick(rw, 3, 3, 4), pick(rw, 2, 2, 5)
 		var attrs []mb.Attr
-		bshape := []int{3, 2}
+		ashape, aaxis := []int{b, k}, 0
+		if transA {
+			ashape, aaxis = []int{k, b}, 1
+			attrs = append(attrs, mb.AI("transA", 1))
+		}
+		bshape := []int{k, n}
 		if transB {
-			bshape = []int{2, 3}
+			bshape = []int{n, k}
 			attrs = append(attrs, mb.AI("transB", 1))
 		}
 		if rw.Bool() {
-			attrs = append(attrs, mb.AF("alpha", 0.5), mb.AF("beta", 2))
+			attrs = append(attrs, mb.AF("alpha", float32(rw.Range(1, 6))/4))
 		}
-		ops := []Operand{data(RandF32(rd, []int{b, 3}, -2, 2), 0), weight(RandF32(rw, bshape, -1, 1))}
+		if rw.Bool() {
+			attrs = append(attrs, mb.AF("beta", float32(rw.Range(1, 6))/2))
+		}
+		ops := []Operand{data(RandOf(rd, dt, ashape), aaxis), weight(RandOf(rw, dt, bshape))}
 		if rw.Chance(3, 4) {
-			ops = append(ops, weight(RandF32(rw, pick(rw, []int{2}, []int{1, 2}, []int{1}), -1, 1)))
+			ops = append(ops, weight(RandOf(rw, dt, pick(rw, []int{n}, []int{1, n}, []int{1}))))
 		}
 		return OpCase{Op: "Gemm", Attrs: attrs, Operands: ops, Outs: []string{"y"}}
 	}})
 	ts = append(ts, Template{Name: "MatMul", Sensitive: true, Gen: func(rw, rd *rng.R, b int) OpCase {
-		switch rw.Intn(4) {
+		switch rw.Intn(7) {
+		case 4:
+			// big enough for gonum's blocked / parallel GEMM path
+			return OpCase{Op: "MatMul", Operands: []Operand{data(RandF32(rd, []int{b + 63, 70}, -1, 1), 0), weight(RandF32(rw, []int{70, 66}, -1, 1))}, Outs: []string{"y"}}
+		case 5:
+			dt := pick(rw, val.Float64, val.Float64, val.Float64, val.Int32)
+			return OpCase{Op: "MatMul", Operands: []Operand{data(RandOf(rd, dt, []int{b, 3}), 0), weight(RandOf(rw, dt, []int{3, 2}))}, Outs: []string{"y"}}
+		case 6:
+			// batched weight broadcast against batched data
+			return OpCase{Op: "MatMul", Operands: []Operand{data(RandF32(rd, []int{b, 2, 3}, -2, 2), 0), weight(RandF32(rw, []int{1, 3, 2}, -1, 1))}, Outs: []string{"y"}}
 		case 0:
 			return OpCase{Op: "MatMul", Operands: []Operand{data(RandF32(rd, []int{b, 3}, -2, 2), 0), weight(RandF32(rw, []int{3, 2}, -1, 1))}, Outs: []string{"y"}}
 		case 1:
